@@ -1,5 +1,5 @@
 /-
-  C14 — Inert text stays text (block-level half).
+  C14 — Inert text stays text.
 
   "A paragraph made of words and punctuation in positions where CommonMark gives them no meaning
   … is rendered as exactly that text inside a single paragraph."  The block phase decides which
@@ -13,6 +13,17 @@
     starts on (`C14_blank_separated`, `C14_blank_separated_phase`);
   * a line whose first character after at most three spaces is a letter — more generally, any
     character that no block pattern begins with — is inert (`C14_inert_of_plain`, `C14_inert_of_plainStart`).
+
+  Inline half and end to end (second part of the file, lemmas in `Proofs/InertInline.lean`):
+
+  * no candidate from any class ⇒ exactly one `RawText` with the unescaped string (`C14_no_candidates_raw`);
+  * a decidable character-level condition `inertText` under which no class of the HTML renderer's
+    span list (any list without `Math`/`GithubWiki`) finds anything and `html.unescape` is the
+    identity, so the text is one `RawText` holding exactly the text (`C14_inline_inert`); with no `$`
+    and no `[[` also for `Math`/`GithubWiki` (`C14_inline_inert_all`);
+  * several such lines give `RawText, LineBreak(soft), RawText, …` (`C14_inline_lines`);
+  * `Document` + `HtmlRenderer` on block-inert, inline-inert lines: one paragraph, rendered as
+    `<p>` + the HTML-escaped text + `</p>\n` (`C14_prose_line`, `C14_prose`, `C14_prose_verbatim`).
 -/
 import Mistletoe.Proofs.Inert
 import Mistletoe.Proofs.InertInline
@@ -372,6 +383,31 @@ theorem C14_inline_inert_html (fn : Footnotes.Table) (s : Str) (h : inertText s 
     tokenizeInner htmlSpanTypes fn s = .ok [.rawText s] :=
   (C14_inline_inert htmlSpanTypes fn s htmlSpanTypes_inert h).2.2 hne
 
+/-- **Every modelled class, `Math` and `GithubWiki` included**: if moreover the text contains no `$`
+    and no `[[`, no class at all finds a match — for every token list whatsoever. -/
+theorem C14_inline_inert_all (types : List STok) (fn : Footnotes.Table) (s : Str)
+    (h : inertText s = true) (hd : '$' ∉ s) (hw : wikiOk s = true) :
+    findAll s types fn = .ok [] ∧ (s ≠ [] → tokenizeInner types fn s = .ok [.rawText s]) :=
+  ⟨findAll_inert_all s types fn h hd hw, tokenizeInner_inert_all types fn s h hd hw⟩
+
+/-- **Characters with no inline meaning anywhere.**  Text made only of characters other than
+    ``\ ` < & ~ [ * _`` and newline — ASCII letters, digits, spaces, every non-ASCII character and
+    ``. , ; : ( ) - + = | # > / ' " ^ $ % @ ? ! ] { }`` — is inert, whatever the order. -/
+theorem C14_inert_of_plain_chars (s : Str) (h : ∀ c ∈ s, plainInline c = true) : inertText s = true :=
+  inertText_of_plain s h
+
+/-- the characters named in the property are among them -/
+example : (". ,;:()-+=|#>/'\"^$%@?!]{}azAZ09 é日".toList).all plainInline = true := by decide
+
+/-- **The interesting characters**: a run of `*` / `_` preceded by whitespace or at the start of the
+    text cannot close emphasis, and neither can an intraword `_` run; these are two of the cases in
+    which `emphOk` (hence `inertText`) accepts the run. -/
+theorem C14_delimiter_cases :
+    (∀ d b a, Core.uniWs b = true → canClose d b a = false) ∧
+    (∀ b a, Core.uniWs b = false → Core.punct b = false → Core.uniWs a = false → Core.punct a = false →
+      canClose '_' b a = false) :=
+  ⟨canClose_after_space, canClose_intraword⟩
+
 /-- **Several inert lines.**  `ts` are the lines of a paragraph as `Paragraph.__init__` joins them
     (non-empty, no newline inside, not ending in a space; backslashes are excluded by `inertBody`), the
     joined text is inert, the token list consists of covered classes and contains `LineBreak` once:
@@ -504,6 +540,13 @@ example : ∃ d, Document.parseLines cfgHtml 14 prose = .ok d ∧ render { dq :=
   obtain ⟨h1, h2⟩ := C14_prose cfgHtml (by decide) htmlSpanTypes_inert (by decide) prose (by decide)
     prose_lines_ok prose_text_ok 0
   exact ⟨_, h1, by rw [h2]; decide +kernel⟩
+
+/-- why `proseLine` excludes whitespace before the "\n": two trailing spaces are a hard line break
+    (markup), one trailing space is dropped -/
+example : (Document.parseLines cfgHtml 14 [L "a  \n", L "b\n"]).bind (fun d => .ok (render {} d)) = .ok (L "<p>a<br />\nb</p>\n") := by
+  decide +kernel
+example : (Document.parseLines cfgHtml 14 [L "a \n", L "b\n"]).bind (fun d => .ok (render {} d)) = .ok (L "<p>a\nb</p>\n") := by
+  decide +kernel
 
 example : Document.parseLines cfgHtml 14 [L "   (see p. 3) a_b * c\n"] =
     .ok { kids := [.paragraph [.rawText (L "(see p. 3) a_b * c")] 1], footnotes := [] } :=
